@@ -154,7 +154,16 @@ def rule_c18(ob, clause, wit):
   return r or None
 
 
-RULES = {"C18": rule_c18, "C17": rule_c17, "C10": rule_c10, "C19": rule_c19}
+FINDINGS["C05-auto-zero-group-scale"] = "quantized_bits(alpha='auto'): the scale is max|x| * 2 / levels over the scaling group with no floor, so a group (output channel) whose elements are all zero gets scale 0 - not a positive scale (the value is recorded in quantizer.scale and later divided by in the hardware export); auto_po2 is not affected (epsilon inside the log)"
+
+
+def rule_c05(ob, clause, wit):
+  if clause == "scale_pos":
+    return "C05-auto-zero-group-scale", "scale <= 0"
+  return None
+
+
+RULES = {"C05": rule_c05, "C18": rule_c18, "C17": rule_c17, "C10": rule_c10, "C19": rule_c19}
 
 
 def main(prop, tier="quick"):
